@@ -37,6 +37,9 @@ for vj in sorted(glob.glob("/tmp/val/C*-m*.json")) + sorted(glob.glob("/tmp/val/
         shutil.rmtree(dst)
     os.makedirs(dst)
     shutil.copy(os.path.join(cand, "patch.diff"), dst)
+    if os.path.exists(os.path.join(cand, "patch.orig.diff")):
+        # the change as its author wrote it, when patch.diff had to be re-based onto a later fix: commit in /repo
+        shutil.copy(os.path.join(cand, "patch.orig.diff"), dst)
     shutil.copytree(os.path.join(cand, "demo"), os.path.join(dst, "demo"), ignore=shutil.ignore_patterns("target", "Cargo.lock"))
     notes = os.path.join(cand, "NOTES.md")
     needs = ""
